@@ -2,7 +2,7 @@
 EXTENDS FieldText
 AllKinds == {"choice", "constant", "pattern", "regex"}
 W == {"a", "A", "b", "ab", "Ab"}
-G == {"a", "b", "?", "*"}
+G == {"a", "b", "?", "*", "[ab]", "[!a]"}
 At == {[ch |-> c, star |-> FALSE] : c \in {"a", "b", ".", "$"}} \cup {[ch |-> c, star |-> TRUE] : c \in {"a", "b", "."}}
 TC == {"a", "A", "b"}
 =============================================================================
